@@ -14,6 +14,7 @@
           VL [4; d]                            backend time passes: miniredis.FastForward(d) / memory VerifAdvance(d)
           VL [5; n; id; addr; t0]              RegisterNodeAddress
           VL [6; n; id; t0; obs]               GetNodeAddress;        obs = VL [0; addr] | VL [1] not found | VL [2] bad
+          VL [7; op]                           the same call while the shared tier fails (one-call outage)
      rec8 = VL [tunnel; mapping; secret; node; src+2^63; dst+2^63; host; port+2^63], rec10 = rec8 ++ [created; expires]
 
    Time: the routing table reads the real clock.  A Register is replayed at exactly the CreatedAt the code chose
@@ -22,7 +23,7 @@
    answers differ the step is "ambiguous" (counted by predict, never a mismatch by itself).  The model clock always
    stays a lower bound of the real time. *)
 From Coq Require Import ZArith.
-From TX Require Import Base.Val Model.Routing Proofs.SideC09 Gen.C09.
+From TX Require Import Base.Val Model.RoutingForward Proofs.SideC09 Gen.C09.
 Open Scope N_scope.
 
 (* the codec instance and the deployment configurations are those of Proofs/SideC09.v (ex_codec: dec (enc r) = Some r) *)
@@ -120,6 +121,27 @@ Definition replay_op (kind : N) (c : cfg) (s : mstate) (o : tval) : mstate * boo
       let s0 := tick_to kind c s (vn (vnth 3 o)) in
       let '(s1, r) := mstep c s0 (OGetAddr (vnat (vnth 1 o)) (vb (vnth 2 o))) in
       (s1, res_matches merge r (vnth 4 o), false, (res_code r, res_code r))
+  | 7 =>
+      (* VL [7; inner]: the shared tier failed during this call (miniredis SetError for one call): Model/RoutingForward.v
+         qstep with fallback = false.  A reported storage error is observation code 4 (2 for GetNodeAddress) *)
+      let i := vnth 1 o in
+      let n := vnat (vnth 1 i) in
+      let '(mo, t, obs) :=
+        match vn (vnth 0 i) with
+        | 1 => (ORegister n (dec_rec8 (vnth 2 i)), vn (vnth 3 i), vnth 4 i)
+        | 2 => (OLookup n (vb (vnth 2 i)), vn (vnth 3 i), vnth 5 i)
+        | 3 => (ORemove n (vb (vnth 2 i)), vn (vnth 3 i), vnth 4 i)
+        | 5 => (ORegAddr n (vb (vnth 2 i)) (vb (vnth 3 i)), vn (vnth 4 i), VL [VN 4])
+        | _ => (OGetAddr n (vb (vnth 2 i)), vn (vnth 3 i), vnth 4 i)
+        end in
+      let s0 := tick_to kind c s t in
+      let '(s1, r) := qstep ex_gstr ex_enc ex_dec ex_dec ex_of_addr ex_to_addr ex_keep false c s0 (QFault mo) in
+      let ok := match r with
+                | QR r' => res_matches merge r' obs
+                | QStorageErr => let code := vn (vnth 0 obs) in
+                                 match mo with OGetAddr _ _ => N.eqb code 2 | _ => N.eqb code 4 end
+                end in
+      (s1, ok, false, (match r with QR r' => res_code r' | QStorageErr => 4 end, 0))
   | _ => (s, false, false, (9, 9))
   end.
 
